@@ -65,7 +65,8 @@ def run(ctx):
         sizes.update([3521, 3522, 5003, 5004, 12299, 12300])
         for _ in range(6):
             sizes.add(rng.randrange(3521, 12300))
-        big = [25 * 4064 + 2, 25 * 4064 + 3, 26 * 4064 + 1]
+        # ... and one volume with TWO bitmap extension blocks, the second partly filled (154 pages = 25 + 127 + 2)
+        big = [25 * 4064 + 2, 25 * 4064 + 3, 26 * 4064 + 1, 153 * 4064 + 5]
     else:
         sizes.update(range(3521, 12301))
         for k in range(4, 31):
